@@ -254,6 +254,8 @@ struct Cl {
     t0: Instant,
     in_config: bool,
     ka_echo: bool,
+    /// PROXY header bytes held back so that they leave in ONE write with the first bytes of the session
+    prefix: Vec<u8>,
     secret: Option<Vec<u8>>,
 }
 fn now_ms(t0: Instant) -> u64 { (Instant::now() - t0).as_millis() as u64 }
@@ -263,6 +265,7 @@ impl Cl {
     async fn send_raw(&mut self, plain: &[u8]) -> bool {
         let mut w = plain.to_vec();
         if let Some(e) = self.enc.as_mut() { for b in w.chunks_mut(1) { e.encrypt_block_mut(GenericArray::from_mut_slice(b)); } }
+        if !self.prefix.is_empty() { let mut p = std::mem::take(&mut self.prefix); p.extend_from_slice(&w); w = p; }
         self.s.write_all(&w).await.is_ok()
     }
     async fn send_frame(&mut self, id: i32, body: &[u8]) -> bool { let f = frame_bytes(id, body); self.send_raw(&f).await }
@@ -422,11 +425,17 @@ async fn client(t0: Instant, port: u16, cs: ConnScript, cfg: Cfg, obs: Arc<Mutex
     let Ok(s) = sock.connect(SocketAddr::new(IpAddr::V4(Ipv4Addr::LOCALHOST), port)).await else { return };
     let _ = s.set_nodelay(true);
     obs.lock().unwrap().connected = true;
-    let mut c = Cl { s, enc: None, dec: None, buf: vec![], obs, t0, in_config: false, ka_echo: false,
+    let mut c = Cl { s, enc: None, dec: None, buf: vec![], obs, t0, in_config: false, ka_echo: false, prefix: vec![],
                      secret: cfg.secret.clone().map(String::into_bytes) };
     match &cs.hdr {
         Hdr::None => {}
-        Hdr::Full { delay, bytes, .. } => { pace(*delay).await; if !c.send_raw(bytes).await { c.drain().await; return; } }
+        Hdr::Full { delay, bytes, .. } => {
+            pace(*delay).await;
+            // every second talkative client sends its header and the first bytes of its session in one segment
+            let talkative = matches!(cs.beh, Beh::Status | Beh::Login { .. } | Beh::Probe | Beh::StopAt(_) | Beh::MidFrame | Beh::KaForever);
+            if talkative && cs.id % 2 == 0 { c.prefix = bytes.clone(); }
+            else if !c.send_raw(bytes).await { c.drain().await; return; }
+        }
         Hdr::Partial { delay, bytes, eof } => {
             pace(*delay).await;
             let _ = c.send_raw(bytes).await;
@@ -654,6 +663,8 @@ fn mk_hdr(r: &mut Rng, kind: u32, src: &SocketAddr, delay: u64) -> Hdr {
             };
             Hdr::Full { delay, bytes, cls: "HBad".into() }
         }
+        // v2 with the DGRAM transport nibble: still a valid header announcing a source
+        8 => { let mut b = proxy_v2(Some((src, &dst))); b[13] = (b[13] & 0xf0) | 0x02; Hdr::Full { delay, bytes: b, cls: format!("(HV2 (Some {}))", g_addr(src)) } }
         // absent: the client starts with its Minecraft handshake
         5 => Hdr::Full { delay, bytes: frame_bytes(0, &handshake_body("absent", 1)), cls: "HBad".into() },
         6 => { let b = proxy_v1(src, &dst); let n = 1 + r.below(b.len() as u64 - 2) as usize; Hdr::Partial { delay, bytes: b[..n].to_vec(), eof: None } }
@@ -779,11 +790,11 @@ fn main() {
                 let mut c = plain(id, 2 + r.below(3) as u8, t, beh.clone(), nat_of(&beh, 0));
                 if proxy.is_some() {
                     let src = rnd_src(&mut r, if heavy { 1 + (i / 2 % 2) as usize } else { 8 });
-                    let kind = if heavy { *r.pick(&[0u32, 0, 0, 0, 1, 1, 1, 1, 2, 4]) } else { *r.pick(&[0u32, 0, 0, 1, 1, 1, 2, 3, 4, 5, 6, 7]) };
+                    let kind = if heavy { *r.pick(&[0u32, 0, 0, 0, 1, 1, 1, 8, 2, 4]) } else { *r.pick(&[0u32, 0, 0, 1, 1, 8, 2, 3, 4, 5, 6, 7, 8]) };
                     let hd = *r.pick(&[0u64, 0, 30]);
                     c.hdr = normalize(mk_hdr(&mut r, kind, &src, hd), proxy);
                     st.hit(&format!("ADM.hdr_kind={}", kind));
-                    if kind < 2 { c.eff_ip = src.ip(); }
+                    if kind < 2 || kind == 8 { c.eff_ip = src.ip(); }
                     if let Hdr::Partial { .. } = c.hdr { c.nat = None; }
                     if proxy.is_none() { c.hdr = Hdr::None; }
                 } else if r.chance(1, 4) {
@@ -807,8 +818,11 @@ fn main() {
                 }
             }
             let end = t + 4000 + 600;
-            let run = run_case(0, &cfg, &conns, None, end);
-            emit("ADM", 0, &cfg, &conns, None, end, &run);
+            // the single-version PROXY configurations also through the application's own configuration mapping
+            let mode = if matches!(i % 6, 3 | 4) && (i / 6) % 2 == 1 { 1 } else { 0 };
+            let run = run_case(mode, &cfg, &conns, None, end);
+            emit("ADM", mode, &cfg, &conns, None, end, &run);
+            st.hit(&format!("ADM.mode={}", mode));
             st.hit(&format!("ADM.proxy={:?}", proxy)); st.hit(&format!("ADM.lim={:?}", lim.map(|l| l.0))); st.hit(&format!("ADM.n={}", n)); ncase += 1;
         }
     }
